@@ -202,6 +202,15 @@ Fixpoint cumsum_flt (acc : option Q) (l : list sval) : list sval :=
 Fixpoint map2 {A B C} (f : A -> B -> C) (l : list A) (m : list B) : list C :=
   match l, m with x :: r, y :: s => f x y :: map2 f r s | _, _ => [] end.
 
+(* named cell-wise maps (kept folded by the proof tactics) *)
+Definition cmp_cells (op : cmpop) (v : sval) (d : list sval) : list sval :=
+  map (fun c => VBool (eval_cmp op c v)) d.
+Definition div_cells_sc (v : sval) (d : list sval) : list sval :=
+  map (fun p => VFlt (fdiv (to_flt p) (to_flt v))) d.
+Definition div_cells (a b : list sval) : list sval :=
+  map2 (fun p q => VFlt (fdiv (to_flt p) (to_flt q))) a b.
+Definition coerce_cells (dt : dtype) (d : list sval) : list sval := map (coerce dt) d.
+
 (* ---------- store ---------- *)
 Definition store := list (var * value).
 Fixpoint get (st : store) (x : var) : value :=
@@ -316,7 +325,7 @@ Definition assign_target (t : target) (v : value) (st : store) : res store :=
       match r, v with
       | A2 dt n c d, Ar (A1 _ col) =>
           do _ <- chk (in_range j c && (zlen col =? n)) s;
-          Ok (set st a (Ar (A2 dt n c (set_col n c j d (map (coerce dt) col)))))
+          Ok (set st a (Ar (A2 dt n c (set_col n c j d (coerce_cells dt col)))))
       | _, _ => Er (OOB s)
       end
   end.
@@ -409,7 +418,7 @@ Fixpoint exec (fuel : nat) (c : stmt) (st : store) {struct fuel} : outcome :=
         | Ok st' => Normal st' | Er e => Err e end
     | SCmpArr x op b e =>
         match (do r <- get_arr st b; do v <- eval e st;
-               Ok (set st x (Ar (A1 DBool (map (fun c => VBool (eval_cmp op c v)) (adata r)))))) with
+               Ok (set st x (Ar (A1 DBool (cmp_cells op v (adata r)))))) with
         | Ok st' => Normal st' | Er e => Err e end
     | SArgsort x b =>
         match (do r <- get_arr st b; Ok (set st x (Ar (A1 DInt (argsort (adata r)))))) with
@@ -424,12 +433,12 @@ Fixpoint exec (fuel : nat) (c : stmt) (st : store) {struct fuel} : outcome :=
     | SArrDiv s x a b =>
         match (do ra <- get_arr st a; do rb <- get_arr st b;
                do _ <- chk ((alen ra =? alen rb) && (acols ra =? acols rb)) s;
-               let d := map2 (fun p q => VFlt (fdiv (to_flt p) (to_flt q))) (adata ra) (adata rb) in
+               let d := div_cells (adata ra) (adata rb) in
                Ok (set st x (Ar (match ra with A1 _ _ => A1 DFlt d | A2 _ r c _ => A2 DFlt r c d end)))) with
         | Ok st' => Normal st' | Er e => Err e end
     | SArrDivSc x a e =>
         match (do ra <- get_arr st a; do v <- eval e st;
-               let d := map (fun p => VFlt (fdiv (to_flt p) (to_flt v))) (adata ra) in
+               let d := div_cells_sc v (adata ra) in
                Ok (set st x (Ar (match ra with A1 _ _ => A1 DFlt d | A2 _ r c _ => A2 DFlt r c d end)))) with
         | Ok st' => Normal st' | Er e => Err e end
     | SCall _ ts fn args =>
